@@ -20,7 +20,7 @@ from .values import mcanon, norm, render
 
 PID = "C03"
 LEVEL = "exploration"
-RULE = ("chains of 2-7 operators; exhaustive for <= 3 operators over all weak orders x associativity mixes (tree family), "
+RULE = ("chains of 1-7 operators; exhaustive for <= 3 operators over all weak orders x associativity mixes (tree family), "
         "Hypothesis-sampled above and for the chainable families; non-trivial = >= 3 operators with at least one precedence tie "
         "or one inversion (a looser operator between two tighter ones) or a merge decision; distinct by source text + precedence table")
 ASSUMPTIONS = [
@@ -170,7 +170,19 @@ def build_prelude(ops_decl):
             pre.append("%s := zip" % name)
         elif d["fam"] == "cart":
             pre.append("%s := **" % name)
-        pre.append("%s::precedence = %s" % (name, prec_src(d["prec"])))
+        form = d.get("pform", 0)
+        if form == 1:
+            # the precedence reached through an operator-assignment (the slot is read, dropped, recomputed and written back)
+            pre.append("%s::precedence = 0.0" % name)
+            pre.append("%s::precedence += %s" % (name, prec_src(d["prec"])))
+        elif form == 2:
+            pre.append("%s::precedence = %s" % (name, prec_src(d["prec"])))
+            pre.append("%s::precedence *= 1.0" % name)
+        elif form == 3:
+            pre.append("%s::precedence = %s" % (name, prec_src(d["prec"])))
+            pre.append("%s::precedence -= 0" % name)
+        else:
+            pre.append("%s::precedence = %s" % (name, prec_src(d["prec"])))
     return pre
 
 
@@ -327,24 +339,26 @@ CHECKS = {"chain": check_chain, "template": check_template}
 # ---- generators ---------------------------------------------------------------------------------------------
 
 
-def tree_decl(names, precs):
+def tree_decl(names, precs, pforms=()):
     d = {}
-    for nm, p in zip(names, precs):
+    for i, (nm, p) in enumerate(zip(names, precs)):
         fam, assoc, tag = TREE_OPS[nm]
         d[nm] = {"fam": fam, "assoc": assoc, "prec": p}
+        if i < len(pforms) and pforms[i]:
+            d[nm]["pform"] = pforms[i]
         if tag is not None:
             d[nm]["tag"] = tag
     return d
 
 
 def s_tree_case():
-    def mk(names, precs, picks, holes, use_holes):
-        decl = tree_decl(names, precs[:len(names)])
+    def mk(names, precs, picks, holes, use_holes, pforms):
+        decl = tree_decl(names, precs[:len(names)], pforms)
         chain = [names[p % len(names)] for p in picks]
         return {"decl": decl, "chain": chain, "leaves": [[k] for k in range(len(chain) + 1)], "holes": holes if use_holes else None}
     names = st.lists(st.sampled_from(sorted(TREE_OPS)), min_size=1, max_size=4, unique=True)
-    return st.builds(mk, names, st.lists(st.sampled_from(LEVELS), min_size=4, max_size=4), st.lists(st.integers(0, 11), min_size=2, max_size=7),
-                     st.lists(st.integers(0, 7), min_size=1, max_size=4), st.booleans())
+    return st.builds(mk, names, st.lists(st.sampled_from(LEVELS), min_size=4, max_size=4), st.lists(st.integers(0, 11), min_size=1, max_size=7),
+                     st.lists(st.integers(0, 7), min_size=1, max_size=4), st.booleans(), st.lists(st.sampled_from([0, 0, 1, 2, 3]), min_size=4, max_size=4))
 
 
 def s_cmp_case():
@@ -390,7 +404,7 @@ def worker(ctx):
     vals = [-math.inf, -0.5, 4.0, math.inf]
     maxn = 4 if ctx.thorough else 3
     jobs = []
-    for n in range(2, maxn + 1):
+    for n in range(1, maxn + 1):     # a single operator is a chain too (the evaluator has a separate path for it)
         for wo in weak_orders(n):
             for kinds in itertools.product(["t", "r", "a"], repeat=n):
                 jobs.append((n, wo, kinds))
@@ -401,7 +415,7 @@ def worker(ctx):
         for i in range(n):
             nm = "o%d" % i
             fam, assoc = {"t": ("tree", "L"), "r": ("pre", "R"), "a": ("app", "L")}[kinds[i]]
-            decl[nm] = {"fam": fam, "assoc": assoc, "prec": vals[wo[i]], "tag": i + 1}
+            decl[nm] = {"fam": fam, "assoc": assoc, "prec": vals[wo[i]], "tag": i + 1, "pform": (j + i) % 4}
             chain.append(nm)
         for holes in (None, [1], [0, n]):
             ctx.check("chain", {"decl": decl, "chain": chain, "leaves": [[k] for k in range(n + 1)], "holes": holes})
